@@ -72,6 +72,10 @@ def response_for(spec, tag, method):
         # the origin writes something it was not asked for right behind a complete response (idle-timeout 408, garbage)
         extra = r.choice([b"HTTP/1.1 408 Request Timeout\r\nContent-Length: 0\r\n\r\n", b"HTTP/1.1 200 OK\r\nContent-Length: 5\r\n\r\nstale", b"EXTRA-" + tag])
         rs = dict(rs, raw=rs["raw"] + extra, feats=set(rs["feats"]) | {"r-unsolicited-after"})
+    if tag in spec.get("ws_refused", ()) and "resp-1xx" not in rs["feats"] and rs["status"] != 101:
+        # the origin refuses a WebSocket handshake but still names the protocol (426 Upgrade Required must, others may)
+        head, sep, rest = rs["raw"].partition(b"\r\n\r\n")
+        rs = dict(rs, raw=head + b"\r\nUpgrade: websocket\r\nSec-WebSocket-Version: 13" + sep + rest, feats=set(rs["feats"]) | {"r-ws-refused"})
     if rs["close_after"] and b"onnection: close" not in rs["raw"].split(b"\r\n\r\n", 1)[0]:
         # make the close visible in the head so that not reusing the connection is protocol-determined, not a race
         head, sep, rest = rs["raw"].partition(b"\r\n\r\n")
